@@ -1,6 +1,9 @@
 package introspection
 
 import (
+	"github.com/vektah/gqlparser/v2"
+	"strings"
+	"sort"
 	"github.com/vektah/gqlparser/v2/ast"
 
 	"github.com/99designs/gqlgen/zzsym"
@@ -220,4 +223,203 @@ func Harness_C16_inputsEnums() {
 	c16CheckDefault(ddef, da.DefaultValue, "directive argument")
 	c16CheckDep(ddep, "dir.arg", da.IsDeprecated(), da.DeprecationReason(), false, "directive argument")
 	zzsym.Reach("c16.inputs")
+}
+
+// ---- relations: kinds, interfaces, possible types, wrapper chains, type
+// list, root types, directives
+
+const c16RelSDL = `
+schema { query: Root mutation: Change }
+"""a node"""
+interface Node { id: ID! }
+interface Named implements Node { id: ID! name: String }
+interface Lonely { x: Int }
+type User implements Node & Named { id: ID! name: String friends: [User!]! matrix: [[Int!]] pet: Pet }
+type Item implements Node { id: ID! title: String! }
+type Robot { serial: Int }
+union Pet = User | Item
+union Solo = Robot
+enum Color { RED GREEN }
+input Filter { min: Int = 1 tags: [String!] sub: Filter }
+input Pick @oneOf { a: Int b: String }
+scalar Odd @specifiedBy(url: "https://example.com/odd")
+scalar Plain
+directive @tag(name: String! = "t", weight: Int) repeatable on FIELD_DEFINITION | OBJECT | ARGUMENT_DEFINITION
+directive @once on QUERY | FIELD
+type Root { node(id: ID!): Node named: Named lonely: Lonely pet: Pet solo: Solo color(c: Color = RED): Color find(f: Filter, p: Pick): [Node] odd: Odd plain: Plain }
+type Change { rename(name: String!): User }
+`
+
+var c16RelSchema *ast.Schema
+
+func Setup_C16_relations() {
+	c16RelSchema = gqlparser.MustLoadSchema(&ast.Source{Name: "rel.graphql", Input: c16RelSDL})
+}
+
+func c16Names(ts []Type) string {
+	var ns []string
+	for _, t := range ts {
+		n := "<nil>"
+		if t.Name() != nil {
+			n = *t.Name()
+		}
+		ns = append(ns, t.Kind()+":"+n)
+	}
+	sort.Strings(ns)
+	return strings.Join(ns, ",")
+}
+
+// c16Chain renders a type reference through its ofType chain: NON_NULL(LIST(NON_NULL(Int))).
+func c16Chain(t *Type) string {
+	if t == nil {
+		return "nil"
+	}
+	switch t.Kind() {
+	case "NON_NULL", "LIST":
+		zzsym.Assert(t.Name() == nil, "wrapper types have no name")
+		return t.Kind() + "(" + c16Chain(t.OfType()) + ")"
+	}
+	zzsym.Assert(t.OfType() == nil, "a named type has no ofType")
+	return *t.Name()
+}
+
+func c16AstChain(t *ast.Type) string {
+	if t.NonNull {
+		c := *t
+		c.NonNull = false
+		return "NON_NULL(" + c16AstChain(&c) + ")"
+	}
+	if t.Elem != nil {
+		return "LIST(" + c16AstChain(t.Elem) + ")"
+	}
+	return t.NamedType
+}
+
+// Harness_C16_relations: for one type (any of the schema's) or one directive:
+// kind, name, description, interfaces (objects and interfaces), possible
+// types (interfaces and unions: object types only), the ofType chain of every
+// field / argument / input field type, specifiedByURL, oneOf, and for the
+// schema the sorted type list, the root types and every directive with its
+// locations, repeatability and arguments - all equal to the ast.Schema.
+func Harness_C16_relations() {
+	s := WrapSchema(c16RelSchema)
+	var names []string
+	for n := range c16RelSchema.Types {
+		names = append(names, n)
+	}
+	sort.Strings(names)
+	types := s.Types()
+	zzsym.Assert(len(types) == len(names), "__schema.types lists every type once")
+	pick := zzsym.Choice("type", len(names)+1)
+	if pick == len(names) {
+		// schema-level data
+		for k := range types {
+			zzsym.Assert(types[k].Name() != nil && *types[k].Name() == names[k], "__schema.types is the schema's type set (sorted by name)")
+		}
+		zzsym.Assert(*s.QueryType().Name() == "Root" && *s.MutationType().Name() == "Change" && s.SubscriptionType() == nil, "root operation types are the schema's")
+		var dn []string
+		for n := range c16RelSchema.Directives {
+			dn = append(dn, n)
+		}
+		sort.Strings(dn)
+		ds := s.Directives()
+		zzsym.Assert(len(ds) == len(dn), "__schema.directives lists every directive once")
+		for k, d := range ds {
+			def := c16RelSchema.Directives[dn[k]]
+			zzsym.Assert(d.Name == def.Name && d.IsRepeatable == def.IsRepeatable, "directive name and repeatability")
+			var want []string
+			for _, l := range def.Locations {
+				want = append(want, string(l))
+			}
+			zzsym.Assert(strings.Join(d.Locations, ",") == strings.Join(want, ","), "directive locations")
+			zzsym.Assert(len(d.Args) == len(def.Arguments), "directive arguments")
+			for j, a := range d.Args {
+				zzsym.Assert(a.Name == def.Arguments[j].Name && c16Chain(a.Type) == c16AstChain(def.Arguments[j].Type), "directive argument name and type")
+			}
+		}
+		zzsym.Reach("c16.rel.schema")
+		return
+	}
+	def := c16RelSchema.Types[names[pick]]
+	t := WrapTypeFromDef(c16RelSchema, def)
+	zzsym.Assert(t.Kind() == string(def.Kind) && *t.Name() == def.Name, "kind and name")
+	zzsym.Assert((t.Description() == nil) == (def.Description == "") && (t.Description() == nil || *t.Description() == def.Description), "description")
+	// interfaces: declared ones, for objects and for interfaces
+	var wantIf []string
+	if def.Kind == ast.Object || def.Kind == ast.Interface {
+		for _, n := range def.Interfaces {
+			wantIf = append(wantIf, "INTERFACE:"+n)
+		}
+	}
+	sort.Strings(wantIf)
+	if def.Kind == ast.Interface && len(def.Interfaces) > 0 {
+		zzsym.Assert(c16Names(t.Interfaces()) == strings.Join(wantIf, ","), "an interface reports the interfaces it implements")
+	}
+	zzsym.Assert(def.Kind == ast.Interface || c16Names(t.Interfaces()) == strings.Join(wantIf, ","), "interfaces are exactly the declared ones")
+	// possible types: objects implementing the interface / members of the union
+	var wantPT []string
+	for _, o := range c16RelSchema.Types {
+		if o.Kind != ast.Object {
+			continue
+		}
+		switch def.Kind {
+		case ast.Interface:
+			for _, n := range o.Interfaces {
+				if n == def.Name {
+					wantPT = append(wantPT, "OBJECT:"+o.Name)
+				}
+			}
+		case ast.Union:
+			for _, n := range def.Types {
+				if n == o.Name {
+					wantPT = append(wantPT, "OBJECT:"+o.Name)
+				}
+			}
+		}
+	}
+	sort.Strings(wantPT)
+	zzsym.Assert(c16Names(t.PossibleTypes()) == strings.Join(wantPT, ","), "possibleTypes are exactly the implementing objects / union members")
+	// fields and their type chains
+	fs := t.Fields(true)
+	nf := 0
+	for _, f := range def.Fields {
+		if !strings.HasPrefix(f.Name, "__") {
+			nf++
+		}
+	}
+	if def.Kind == ast.Object || def.Kind == ast.Interface {
+		zzsym.Assert(len(fs) == nf, "every field once")
+		k := 0
+		for _, f := range def.Fields {
+			if strings.HasPrefix(f.Name, "__") {
+				continue
+			}
+			zzsym.Assert(fs[k].Name == f.Name && c16Chain(fs[k].Type) == c16AstChain(f.Type), "field name and type (ofType chain)")
+			zzsym.Assert(len(fs[k].Args) == len(f.Arguments), "every argument once")
+			for j, a := range f.Arguments {
+				zzsym.Assert(fs[k].Args[j].Name == a.Name && c16Chain(fs[k].Args[j].Type) == c16AstChain(a.Type), "argument name and type")
+			}
+			k++
+		}
+	} else {
+		zzsym.Assert(len(fs) == 0, "only objects and interfaces have fields")
+	}
+	ifs := t.InputFields()
+	if def.Kind == ast.InputObject {
+		zzsym.Assert(len(ifs) == len(def.Fields), "every input field once")
+		for j, f := range def.Fields {
+			zzsym.Assert(ifs[j].Name == f.Name && c16Chain(ifs[j].Type) == c16AstChain(f.Type), "input field name and type")
+		}
+	} else {
+		zzsym.Assert(len(ifs) == 0, "only input objects have input fields")
+	}
+	evs := t.EnumValues(true)
+	zzsym.Assert((def.Kind == ast.Enum && len(evs) == len(def.EnumValues)) || (def.Kind != ast.Enum && len(evs) == 0), "enum values")
+	zzsym.Assert(t.IsOneOf() == (def.Kind == ast.InputObject && def.Directives.ForName("oneOf") != nil), "isOneOf")
+	if sb := def.Directives.ForName("specifiedBy"); sb != nil && def.Kind == ast.Scalar {
+		zzsym.Assert(t.SpecifiedByURL() != nil && *t.SpecifiedByURL() == sb.Arguments.ForName("url").Value.Raw, "specifiedByURL")
+	} else {
+		zzsym.Assert(t.SpecifiedByURL() == nil, "no specifiedByURL unless declared on a scalar")
+	}
+	zzsym.Reach("c16.rel.type")
 }
